@@ -254,6 +254,11 @@ def run(P, rep, tier):
     rep.ob('C24.FEED', 'feedback-row', ok, asg.loc(fb[0]) if fb else asg.loc(), 'feedback task carries the row whose first segment became ready')
     rep.floor('C24.FEED', 3)
 
+    # the hand-off of a released segment row to another thread travels in a pooled task object: every member the EncDec kernel
+    # reads unconditionally is stored by every producer of such a task (rule body shared with C04.MSGHDR)
+    from rules.C04 import run_msghdr
+    run_msghdr(P, rep, Classes(P), 'C24.TASKHDR', ('EncDecTasks', 'EncDecResults'), 4)
+
     # ---------------- REARM
     FIRST_PASS = {'mode_decision_configuration_kernel': ('picture_manager_kernel', 'first pass: the picture manager re-arms the segments when it binds the child picture control set, before the picture reaches rate control and mode-decision configuration')}
     cg = P.callgraph()
